@@ -347,7 +347,7 @@ impl<T> LinkedList<T> {
 
 #[cfg(kani)]
 #[path = "/verif/kani/list.rs"]
-mod kani_verif;
+pub(crate) mod kani_verif;
 
 #[cfg(all(test, feature = "alloc"))] // Tests make use of Vec at the moment
 mod tests {
